@@ -62,6 +62,60 @@ def Holder.heldByHandles : Holder → Bool
   | .package => false
   | .builder => false
 
+/-- which script constants a statement of `Drop for RotoConstant` runs for (the
+    storage of a constant of a zero-sized type is a zero-byte allocation) -/
+inductive SizeGuard
+  | always   -- unconditional
+  | ifSized  -- only when `size > 0`
+  | ifZst    -- only when `size == 0`
+  deriving DecidableEq, Repr
+
+/-- what a statement of `Drop for RotoConstant` does -/
+inductive DropAct
+  | callDropFn  -- `(self.drop_fn)(self.ptr)`: runs the constant's (JIT-compiled) drop function
+  | dealloc     -- gives the slot back to the allocator
+  | ret         -- `return`
+  deriving DecidableEq, Repr
+
+def SizeGuard.applies : SizeGuard → Bool → Bool
+  | .always, _ => true
+  | .ifSized, zst => !zst
+  | .ifZst, zst => zst
+
+/-- how often `Drop for RotoConstant` (its statements, in order, each under its
+    guard) calls the constant's drop function for a constant of that size class -/
+def dropFnCalls : List (SizeGuard × DropAct) → Bool → Nat
+  | [], _ => 0
+  | (g, a) :: rest, zst =>
+    if g.applies zst then
+      match a with
+      | .callDropFn => dropFnCalls rest zst + 1
+      | .dealloc => dropFnCalls rest zst
+      | .ret => 0
+    else dropFnCalls rest zst
+
+/-- does the body call the drop function after it gave the slot back (a drop
+    function reading freed memory) for a constant of that size class -/
+def dropFnAfterDealloc : List (SizeGuard × DropAct) → Bool → Bool
+  | [], _ => false
+  | (g, a) :: rest, zst =>
+    if g.applies zst then
+      match a with
+      | .callDropFn => dropFnAfterDealloc rest zst
+      | .dealloc => decide (0 < dropFnCalls rest zst)
+      | .ret => false
+    else dropFnAfterDealloc rest zst
+
+/-- how the module's keep-alive collection of registered functions identifies
+    its entries: one entry per inserted `Arc` (a `Vec` that is pushed to), or one
+    entry per *Rust type* of the registered function (a map keyed by `TypeId`,
+    insert-if-absent) — closures made by one closure expression share a type but
+    not their captured state -/
+inductive KeepKey
+  | perArc
+  | perRustType
+  deriving DecidableEq, Repr
+
 /-- declaration-level facts of the implementation (generated) -/
 structure Facts where
   /-- fields of `ModuleData` in declaration (= drop) order -/
@@ -88,6 +142,12 @@ structure Facts where
   /-- the holder of every kind of out-of-line data the emitted code refers to by
       address, other than constants and registered closures -/
   dataHolders : List Holder
+  /-- the statements of `Drop for RotoConstant::drop`, in order, each with the
+      size class of constants it runs for -/
+  constDrop : List (SizeGuard × DropAct)
+  /-- how `ModuleData`'s keep-alive collection of registered functions is keyed
+      (see Model/LifetimeKeep.lean for the machine that uses it) -/
+  fnsKeep : KeepKey
   deriving Repr
 
 inductive Res
@@ -112,6 +172,7 @@ inductive CallRes
 structure ModInfo where
   rt : Nat := 0          -- the runtime it was compiled against
   nconst : Nat := 0      -- number of script constants
+  nzst : Nat := 0        -- the constants `c < nzst` are of a zero-sized type (with drop glue)
   keepConst : Bool := false  -- the module holds a clone of RegConst rt
   keepClos : Bool := false   -- the module holds a clone of Closure rt
   useConst : Bool := false   -- `main` reads RegConst rt
@@ -156,7 +217,7 @@ inductive Op
   | buildRuntime (r : Nat)
   | registerConst (r : Nat)
   | registerClosure (r : Nat)
-  | compile (r k nconst : Nat) (useConst useClos useData : Bool) (value : Nat)
+  | compile (r k nconst nzst : Nat) (useConst useClos useData : Bool) (value : Nat)
   | getHandle (k : Nat)
   | getTest (k : Nat)
   | cloneHandle (i : Nat)
@@ -192,6 +253,24 @@ def dropScriptConsts (k : Nat) : Nat → St → St
     let s := if s.mapped k then s else fault (.dropFnUnmapped k c) s
     release (.scriptConst k c) s
 
+/-- `n` release events of `x` (a drop function that ran `n` times) -/
+def releaseN (x : Res) : Nat → St → St
+  | 0, s => s
+  | n + 1, s => release x (releaseN x n s)
+
+/-- the drop of the `HashMap<_, RotoConstant>` of module k as the generated
+    `Drop for RotoConstant` does it: constant c's drop function is called as
+    often as the body's statements say for its size class (once, on the
+    unchanged tree; not at all for a zero-sized constant if the body returns
+    early for `size == 0`) -/
+def dropRotoConstants (F : Facts) (k : Nat) : Nat → St → St
+  | 0, s => s
+  | c + 1, s =>
+    let s := dropRotoConstants F k c s
+    let n := dropFnCalls F.constDrop (decide (c < (s.info k).nzst))
+    let s := if s.mapped k || n == 0 then s else fault (.dropFnUnmapped k c) s
+    releaseN (.scriptConst k c) n s
+
 /-- `free_memory` on Code k -/
 def freeCode (k : Nat) (s : St) : St :=
   if s.mapped k then release (.code k) { s with mapped := upd s.mapped k false }
@@ -199,7 +278,7 @@ def freeCode (k : Nat) (s : St) : St :=
 
 def dropField (F : Facts) (k : Nat) : Field → St → St
   | .constants, s => if (s.info k).keepConst then decConst (s.info k).rt s else s
-  | .rotoConstants, s => dropScriptConsts k (s.info k).nconst s
+  | .rotoConstants, s => dropRotoConstants F k (s.info k).nconst s
   | .registeredFns, s => if (s.info k).keepClos then decClos (s.info k).rt s else s
   | .jit, s => if FreeSite.wrapperDrop ∈ F.freeSites then freeCode k s else s
   | .plain, s => s
@@ -252,7 +331,7 @@ def valid (s : St) : Op → Bool
   | .buildRuntime r => !(s.built.contains r)
   | .registerConst r => s.rts.contains r && !(s.constEver.contains r)
   | .registerClosure r => s.rts.contains r && !(s.closEver.contains r)
-  | .compile r k _ useConst useClos _ _ =>
+  | .compile r k _ _ useConst useClos _ _ =>
     s.rts.contains r && !(s.compiled.contains k)
       && (!useConst || s.rtConst.contains r) && (!useClos || s.rtClos.contains r)
   | .getHandle k => s.pkgs.contains k
@@ -270,13 +349,13 @@ def step (F : Facts) (s : St) : Op → St
     { s with rtConst := r :: s.rtConst, constEver := r :: s.constEver, constRc := upd s.constRc r 1 }
   | .registerClosure r =>
     { s with rtClos := r :: s.rtClos, closEver := r :: s.closEver, closRc := upd s.closRc r 1 }
-  | .compile r k nconst useConst useClos useData value =>
+  | .compile r k nconst nzst useConst useClos useData value =>
     -- every registered constant is cloned, only referenced functions are
     let keepConst := F.constsCloned && s.rtConst.contains r
     let keepClos := F.fnsCloned && useClos
     { s with
       compiled := k :: s.compiled
-      info := upd s.info k { rt := r, nconst, keepConst, keepClos, useConst, useClos, useData,
+      info := upd s.info k { rt := r, nconst, nzst, keepConst, keepClos, useConst, useClos, useData,
                              dataHolders := F.dataHolders, value }
       strong := upd s.strong k 1
       alive := k :: s.alive
